@@ -204,6 +204,12 @@ def run_rules(mod, ctx: Ctx, only: Optional[set[str]] = None) -> None:
         from .canon import canon_repo
         from .inline import normalise_repo
 
+        if os.environ.get("SA_NO_FLAGS") != "1":
+            from .canon import inline_test_flags_repo
+
+            n_fl = inline_test_flags_repo(ctx.repo)
+            if n_fl:
+                ctx.note(f"single-assignment test flags replaced by their test (sa/canon.py C10): {n_fl}")
         n_canon = canon_repo(ctx.repo)
         if os.environ.get("SA_NO_INDEXLOOPS") != "1":
             from .canon import index_loops_repo
